@@ -21,6 +21,7 @@ from sympde.core              import Constant
 from sympde.core.basic        import BasicMapping
 from sympde.core.basic        import CalculusFunction
 from sympde.core.basic        import _coeffs_registery
+from sympde.old_sympy_utilities import is_sequence
 from sympde.calculus.core     import PlusInterfaceOperator, MinusInterfaceOperator
 from sympde.calculus.core     import grad, div, curl, laplace #, hessian
 from sympde.calculus.core     import dot, inner, outer, _diff_ops
@@ -1094,6 +1095,9 @@ class LogicalExpr(CalculusFunction):
 #            v   = cls.eval(grad(expr.args[0]), domain)
 #            v   = mapping.jacobian.inv().T*grad(v)
 #            return v
+
+        elif isinstance(expr, Tuple):
+            return Tuple(*[cls.eval(a, domain) for a in expr])
 
         elif isinstance(expr, (dot, inner, outer)):
             args = [cls.eval(arg, domain) for arg in expr.args]
